@@ -33,7 +33,7 @@ CHECKS = {
                           ("harness.agents", "C20_TestAgentOrders")]},
     "C06": {"harnesses": [("harness.clock", "C06_ClockAndHistory")]},
     "C07": {"harnesses": [("harness.repro", "C07_Reproducible")], "post": ("harness.repro", "post")},
-    "C08": {"harnesses": [("harness.ophistory", "C08_OpHistory")]},
+    "C08": {"harnesses": [("harness.ophistory", "C08_OpHistory"), ("harness.priority", "C08_HeapMaintenance")]},
     "C03": {"harnesses": [("harness.matching", "C03_ClearingRound"), ("harness.matching", "C03_Continuous"),
                           ("harness.ophistory", "C03_OpHistory"), ("harness.priority", "C03_HeapMaintenance"),
                           ("harness.events", "C03_RoundsUnderHalt")]},
